@@ -90,7 +90,10 @@ Lemma filter_groups_notin : forall (gs : list group) n,
 Proof.
   induction gs as [|h gs IH]; intros n Hok Hn; [reflexivity|].
   inversion Hok as [|? ? Hh Hok']; subst. cbn [flat_map map] in *. rewrite filter_app.
-  rewrite filter_group_other; auto. cbn [app]. apply IH; auto.
+  rewrite filter_group_other.
+  - cbn [app]. apply IH; auto. intros Hc. apply Hn. right. exact Hc.
+  - exact Hh.
+  - intros Ec. apply Hn. left. exact Ec.
 Qed.
 
 Lemma filter_groups_in : forall (gs : list group) g,
